@@ -132,7 +132,7 @@ def rand_stmt(rnd, depth=0, names=NAMES, files=(), allow_ctl=True):
         st.quote = rnd.choice("\"'/")
     elif r < 0.62:
         st = apm.blk(rnd.choice([".blkb", ".blkw", ".align"]), rand_expr(rnd, 2, names))
-        if rnd.random() < 0.06:
+        if rnd.random() < 0.02:
             # fills that bring the image to the edge of, or past, what the address space and the container headers can describe
             st = apm.blk(rnd.choice([".blkb", ".blkb", ".blkw"]), apm.num(rnd.choice([0o177776, 0o177777, 0o177770, 0o100000, 65535, 65536, 0o77777]), rnd.choice([None, "d"])))
     elif r < 0.66:
